@@ -6,8 +6,6 @@ extractors of /repo and through the compiled Lean models (`drv_c07`), compared e
 Oracle: the property statement evaluated directly on what the real code returns (per-step sets
 from the quantized notes; render + re-quantize for the performances); never uses the model."""
 import collections
-import json
-import math
 import warnings
 
 from harness import nswire
@@ -17,13 +15,22 @@ PID = 'C07'
 MODULES = ['NoteSeqVerif.Props.C07']
 EXE = 'drv_c07'
 THEOREMS = [
-    'NSV.C07.pianoroll_frames', 'NSV.C07.pianoroll_index_error_iff',
-    'NSV.C07.drums_steps', 'NSV.C07.drums_empty_iff',
+    # PianorollSequence
+    'NSV.C07.pianoroll_frames', 'NSV.C07.pianoroll_frame_mem', 'NSV.C07.rollSpec_iff', 'NSV.C07.pianoroll_index_error_iff',
+    # DrumTrack
+    'NSV.C07.drums_steps', 'NSV.C07.drums_empty', 'NSV.C07.mem_pitchesAt', 'NSV.C07.pitchesAt_sorted',
+    # ChordProgression
     'NSV.C07.chords_steps', 'NSV.C07.chords_coincident_iff',
+    # NotePerformance
     'NSV.C07.noteperf_tuples', 'NSV.C07.noteperf_errors',
-    'NSV.C07.perf_shifts', 'NSV.C07.perf_notes_multiset_partial',
-    'NSV.C07.melody_steps_partial',
-    'NSV.C07.steps_per_bar_nonInteger_iff',
+    # Performance / MetricPerformance
+    'NSV.C07.perf_shifts', 'NSV.C07.perf_notes_multiset', 'NSV.C07.perf_onoff_multiset', 'NSV.C07.perf_onsets_in_order',
+    'NSV.C07.perf_defined',
+    # Melody
+    'NSV.C07.melody_steps', 'NSV.C07.melody_empty', 'NSV.C07.keptFrom_sublist', 'NSV.C07.kept_increasing',
+    'NSV.C07.kept_chain', 'NSV.C07.kept_stop', 'NSV.C07.kept_top', 'NSV.C07.dup_iff',
+    # bar length
+    'NSV.C07.steps_per_bar_nonInteger_iff', 'NSV.C07.extractors_nonInteger_iff', 'NSV.C07.bar_start',
 ]
 
 
@@ -179,9 +186,11 @@ def overlap_free(notes):
 def exact_spb(ns):
     """spq*4*num/den as an exact fraction (None if there is no usable time signature)"""
     from fractions import Fraction
-    if not ns.time_signatures or ns.time_signatures[0].denominator <= 0 or ns.time_signatures[0].numerator <= 0:
-        return None
+    if len(ns.time_signatures) != 1 or ns.time_signatures[0].denominator <= 0 or ns.time_signatures[0].numerator <= 0:
+        return None                # a quantized sequence carries exactly one time signature
     ts = ns.time_signatures[0]
+    if ts.denominator & (ts.denominator - 1):
+        return None                # quantize_note_sequence only accepts power-of-two denominators
     return Fraction(ns.quantization_info.steps_per_quarter * 4 * ts.numerator, ts.denominator)
 
 
@@ -493,7 +502,7 @@ def gen_seq(rng, rel, hist):
     span = bar * nbars
     no_overlap = rng.random() < 0.7
     ninst = rng.choice([1, 2, 3])
-    kinds = [rng.choice(['pitched', 'pitched', 'drums', 'mixed']) for _ in range(3)]
+    kinds = [rng.choice(['pitched', 'pitched', 'pitched', 'drums', 'mixed']) for _ in range(3)]
     progs = [rng.choice([0, 0, 5, 40]) for _ in range(3)]
     uniform_prog = rng.random() < 0.7
     vel_zero = rng.random() < 0.3
@@ -515,6 +524,8 @@ def gen_seq(rng, rel, hist):
         elif k < 0.40:
             a = 0
             hist.add('force:step0')
+            if not no_overlap and prev and rng.random() < 0.5:
+                pitch = prev[0]                    # overlapping same-pitch notes from step 0 (correspondence only)
         elif prev and k < 0.50:                    # exactly at / around a gap of 1 or 2 bars after the previous end or start
             a = rng.choice([prev[2], prev[1] + 1]) + bar * rng.choice([1, 2]) + rng.choice([-1, 0, 0, 1])
             hist.add('force:gap-boundary')
@@ -524,6 +535,9 @@ def gen_seq(rng, rel, hist):
             a = rng.randrange(0, span + 1)
         a = max(a, 0)
         b = a + rng.choice([1, 1, 2, 3, 4, bar, rng.randrange(1, 2 * bar + 1)])
+        if rows and rng.random() < 0.1:
+            b = max(max(r[2] for r in rows), a + 1)   # ends with the last note (reaches the final frame)
+            hist.add('force:to-end')
         if no_overlap and any(not (b <= c or d <= a) for (c, d) in occ[pitch]):
             continue
         occ[pitch].append((a, b))
@@ -569,7 +583,7 @@ def gen_malformed(rng, rel, hist):
     """sequences outside the quantifier: unquantized / wrong quantization kind, no or degenerate time
     signature, out-of-range pitches, empty or reversed notes, short total_quantized_steps, odd start times."""
     ns = gen_seq(rng, rel, set())
-    k = rng.randrange(9)
+    k = rng.randrange(10)
     hist.add('malformed:%d' % k)
     if k == 0:
         ns.ClearField('quantization_info')
@@ -596,10 +610,15 @@ def gen_malformed(rng, rel, hist):
     elif k == 7:
         for n in ns.notes:
             n.start_time = rng.choice([0.0, 1.0, 2.5, rng.uniform(0, 4)])
-    else:
+    elif k == 8:
         for n in ns.notes:
             if rng.random() < 0.3:
                 n.velocity = rng.choice([0, 128, 200])
+    else:
+        for _ in range(rng.choice([1, 2])):       # several stored time signatures: the first stored one counts
+            t = ns.time_signatures.add()
+            t.numerator, t.denominator = rng.choice([(3, 4), (6, 8), (7, 8), (5, 4), (4, 4)])
+            t.time = rng.choice([0.0, 1.0])
     return ns
 
 
@@ -613,7 +632,8 @@ def gen_params(rng, op, ns, malformed):
     bar = bar_of(ns)
     starts = [n.quantized_start_step for n in notes] or [0]
     T = ns.total_quantized_steps
-    inst = rng.choice([None, None, 0, 0, 1, 2])
+    present = sorted({n.instrument for n in notes}) or [0]
+    inst = rng.choice([None, None, rng.choice(present), rng.choice(present), rng.choice(present), rng.randrange(0, 3)])
     if op in ('perf', 'mperf', 'nperf'):
         start = rng.choice([0, 0, 0, rng.choice(starts), rng.choice(starts) + 1, bar])
         nb = rng.choice([0, 0, 1, 2, 8, 32, 127, rng.randrange(1, 128)])
@@ -659,7 +679,7 @@ def gen_params(rng, op, ns, malformed):
         ss = bar * rng.choice([0, 0, 0, 1, 2])
         if malformed and rng.random() < 0.3:
             ss += rng.choice([1, -bar])
-        return [ss, rng.randrange(0, 3), rng.choice([1, 1, 2, 3] + ([0] if malformed else [])), rng.random() < 0.6, rng.random() < 0.5,
+        return [ss, rng.choice(present + present + [rng.randrange(0, 3)]), rng.choice([1, 1, 2, 3] + ([0] if malformed else [])), rng.random() < 0.6, rng.random() < 0.5,
                 rng.random() < 0.75]
     return []
 
@@ -751,7 +771,7 @@ def run(chk):
         run_cases(chk, 'corpus', cases)
     # ---- generated streams
     rng = chk.subrng('corr')
-    nseq = chk.n(700, 20000)
+    nseq = chk.n(2500, 60000)
     cases = []
     for i in range(nseq):
         rel = rng.random() < 0.65
@@ -769,7 +789,7 @@ def run(chk):
         chk.sample({'request': reqs[k][:160] + ' …', 'impl': impls[k][:160], 'model_equal': impls[k] == models[k]})
     rng = chk.subrng('malformed')
     cases = []
-    for i in range(chk.n(250, 5000)):
+    for i in range(chk.n(400, 8000)):
         rel = rng.random() < 0.65
         hist = set()
         ns = gen_malformed(rng, rel, hist)
